@@ -1210,3 +1210,583 @@ Proof.
   intros n Hn. apply Hreg. apply def_names_registered; [|exact Hn].
   apply run_history_NInv; [apply NInv_empty|exact F1].
 Qed.
+
+(* ------------------------------------------------------------------ *)
+(* 8. clause 1 without any hypothesis: the rendering-relevant header of *)
+(*    an entry (type name, structural key) never changes; only child    *)
+(*    slots can, and only through break_cycles snips                    *)
+(* ------------------------------------------------------------------ *)
+Definition hdr (e : entry) : option name * N := (ename e, bkey (ebody e)).
+Definition keptH (b : N) (s s' : space) : Prop :=
+  b <= next_id s' /\ forall i, i < b ->
+    option_map hdr (lookup N.eqb i (entries s')) = option_map hdr (lookup N.eqb i (entries s)).
+
+Lemma kept_keptH : forall b s s', kept b s s' -> keptH b s s'.
+Proof. intros b s s' [H1 H2]. split; [exact H1|]. intros i Hi. rewrite H2; auto. Qed.
+
+Lemma keptH_trans : forall b s1 s2 s3, keptH b s1 s2 -> keptH b s2 s3 -> keptH b s1 s3.
+Proof. intros b s1 s2 s3 [H1 H2] [H3 H4]. split; [assumption|]. intros i Hi. rewrite H4, H2; auto. Qed.
+
+Lemma hdr_with_kids : forall e ks, hdr (with_kids e ks) = hdr e.
+Proof. intros [n b|b] ks; reflexivity. Qed.
+
+Lemma box_slot_keptH : forall b s pk, b <= next_id s -> keptH b s (box_slot s pk).
+Proof.
+  intros b s [p k] Hb. unfold box_slot.
+  destruct (lookup N.eqb p (entries s)) as [e|] eqn:Ep; [|apply kept_keptH, kept_refl; exact Hb].
+  destruct (nth_error (ekids e) k) as [c|]; [|apply kept_keptH, kept_refl; exact Hb].
+  destruct (assign_type s (REnt (Unnamed (mkBody BOXKEY [c])))) as [s' bx] eqn:E.
+  pose proof (assign_type_kept b s (REnt (Unnamed (mkBody BOXKEY [c]))) Hb) as [H1 H2]. rewrite E in H1, H2. cbn [fst] in H1, H2.
+  split; simp_space; [exact H1|]. intros i Hi. rewrite lookup_upd_cases.
+  destruct (i =? p) eqn:Ei; [|rewrite H2; auto].
+  apply N.eqb_eq in Ei. subst i. rewrite Ep. cbn [option_map]. rewrite hdr_with_kids. reflexivity.
+Qed.
+
+Lemma fold_box_keptH : forall l b s, b <= next_id s -> keptH b s (fold_left box_slot l s).
+Proof.
+  induction l as [|pk l IH]; intros b s Hb; cbn [fold_left]; [apply kept_keptH, kept_refl; exact Hb|].
+  pose proof (box_slot_keptH b s pk Hb) as H. eapply keptH_trans; [exact H|]. apply IH. apply H.
+Qed.
+
+Lemma run_call_keptH : forall s c, keptH (next_id s) s (fst (run_call s c)).
+Proof.
+  intros s c. destruct c as [scr|defs boxes ret|defs done partial];
+    try (apply kept_keptH, run_call_kept; exact I).
+  cbn [run_call]. destruct (batch_dup defs); [apply kept_keptH, refs_err_kept|]. unfold refs_ok. cbn [fst].
+  pose proof (reserve_kept (next_id s) s defs (N.le_refl _)) as H1.
+  pose proof (convert_defs_kept defs (next_id s) (reserve s defs) (next_id s) (proj1 H1) (N.le_refl _)) as H2.
+  pose proof (fold_box_keptH boxes (next_id s) _ (proj1 H2)) as H3.
+  eapply keptH_trans; [apply kept_keptH; exact H1|]. eapply keptH_trans; [apply kept_keptH; exact H2|].
+  eapply keptH_trans; [exact H3|]. apply kept_keptH, finalize_range_kept. apply H3.
+Qed.
+
+Lemma name_key_stable : forall h s i, i < next_id s ->
+  option_map hdr (lookup N.eqb i (entries (run_history s h))) = option_map hdr (lookup N.eqb i (entries s)).
+Proof.
+  induction h as [|c h IH]; intros s i Hi; unfold run_history in *; cbn [fold_left]; [reflexivity|].
+  pose proof (run_call_keptH s c) as [H1 H2]. rewrite IH; [apply H2; exact Hi|lia].
+Qed.
+
+(* ------------------------------------------------------------------ *)
+(* 9. frame: a call run in a state that contains d extra, independent   *)
+(*    ids [b,b+d) behaves as in the small state, shifted by d           *)
+(* ------------------------------------------------------------------ *)
+Section Frame.
+  Context (b d : N) (G : list (id * entry)).   (* G: the entries of the big state before the call *)
+
+  Definition sh (i : id) : id := if i <? b then i else i + d.
+  Definition sh_body (β : body) : body := mkBody (bkey β) (map sh (bkids β)).
+  Definition sh_entry (e : entry) : entry :=
+    match e with Named n β => Named n (sh_body β) | Unnamed β => Unnamed (sh_body β) end.
+  Definition sh_rentry (r : rentry) : rentry :=
+    match r with RRef i => RRef (sh i) | REnt e => REnt (sh_entry e) end.
+
+  Lemma sh_inj : forall i k, sh i = sh k -> i = k.
+  Proof.
+    intros i k. unfold sh. destruct (i <? b) eqn:Ei; destruct (k <? b) eqn:Ek;
+      try apply N.ltb_lt in Ei; try apply N.ltb_lt in Ek; try apply N.ltb_ge in Ei; try apply N.ltb_ge in Ek; lia.
+  Qed.
+
+  Lemma sh_ge : forall i, b <= i -> sh i = i + d.
+  Proof. intros i H. unfold sh. apply N.ltb_ge in H. rewrite H. reflexivity. Qed.
+
+  Lemma sh_lt : forall i, i < b -> sh i = i.
+  Proof. intros i H. unfold sh. apply N.ltb_lt in H. rewrite H. reflexivity. Qed.
+
+  Lemma sh_not_gap : forall i, ~ (b <= sh i < b + d).
+  Proof. intro i. unfold sh. destruct (i <? b) eqn:E; [apply N.ltb_lt in E|apply N.ltb_ge in E]; lia. Qed.
+
+  Lemma map_sh_inj : forall l l', map sh l = map sh l' -> l = l'.
+  Proof.
+    induction l as [|a l IH]; destruct l' as [|a' l']; cbn [map]; intro H; try discriminate; [reflexivity|].
+    inversion H as [[H1 H2]]. apply sh_inj in H1. subst. f_equal. apply IH. exact H2.
+  Qed.
+
+  Lemma sh_body_inj : forall β β', sh_body β = sh_body β' -> β = β'.
+  Proof.
+    intros [k l] [k' l'] H. unfold sh_body in H. cbn [bkey bkids] in H. inversion H as [[H1 H2]].
+    apply map_sh_inj in H2. subst. reflexivity.
+  Qed.
+
+  Lemma sh_eqb : forall i k, (sh i =? sh k) = (i =? k).
+  Proof.
+    intros i k. destruct (i =? k) eqn:E.
+    - apply N.eqb_eq in E. subst. apply N.eqb_refl.
+    - apply N.eqb_neq. intro H. apply sh_inj in H. apply N.eqb_neq in E. contradiction.
+  Qed.
+
+  Lemma sh_body_eqb : forall β β', body_eqb (sh_body β) (sh_body β') = body_eqb β β'.
+  Proof.
+    intros β β'. destruct (body_eqb β β') eqn:E.
+    - apply body_eqb_ok in E. subst. apply body_eqb_ok. reflexivity.
+    - destruct (body_eqb (sh_body β) (sh_body β')) eqn:E'; [|reflexivity].
+      apply body_eqb_ok in E'. apply sh_body_inj in E'. subst.
+      rewrite (proj2 (body_eqb_ok β' β') eq_refl) in E. discriminate.
+  Qed.
+
+  Definition Tb (β : body) (Y Z : space) : Prop :=
+    lookup body_eqb (sh_body β) (type_to_id Z) = option_map sh (lookup body_eqb β (type_to_id Y)).
+  Definition Nn (n : name) (Y Z : space) : Prop :=
+    lookup N.eqb n (name_to_id Z) = option_map sh (lookup N.eqb n (name_to_id Y)).
+  Definition Rr (r : refkey) (Y Z : space) : Prop :=
+    lookup N.eqb r (ref_to_id Z) = option_map sh (lookup N.eqb r (ref_to_id Y)).
+  Definition Core (Y Z : space) : Prop :=
+    next_id Z = next_id Y + d /\ b <= next_id Y
+    /\ (forall i, lookup N.eqb (sh i) (entries Z) = option_map sh_entry (lookup N.eqb i (entries Y)))
+    /\ (forall j, b <= j < b + d -> lookup N.eqb j (entries Z) = lookup N.eqb j G).
+  (* everything else that is related stays related *)
+  Definition Pres (Y Z Y' Z' : space) : Prop :=
+    (forall n, Nn n Y Z -> Nn n Y' Z') /\ (forall β, Tb β Y Z -> Tb β Y' Z') /\ (forall r, Rr r Y Z -> Rr r Y' Z').
+
+  Lemma Pres_refl : forall Y Z, Pres Y Z Y Z.
+  Proof. intros. repeat split; auto. Qed.
+
+  Lemma Pres_trans : forall Y Z Y1 Z1 Y2 Z2, Pres Y Z Y1 Z1 -> Pres Y1 Z1 Y2 Z2 -> Pres Y Z Y2 Z2.
+  Proof. intros Y Z Y1 Z1 Y2 Z2 [A1 [A2 A3]] [B1 [B2 B3]]. repeat split; auto. Qed.
+
+  Definition r_cond (r : rentry) (Y Z : space) : Prop :=
+    match r with
+    | RRef _ => True
+    | REnt (Named n _) => Nn n Y Z
+    | REnt (Unnamed β) => Tb β Y Z
+    end.
+
+  Lemma Core_alloc : forall Y Z e, Core Y Z ->
+    forall t2y n2y t2z n2z,
+    Core (mkSpace (next_id Y + 1) (upd N.eqb (next_id Y) e (entries Y)) t2y n2y (ref_to_id Y))
+         (mkSpace (next_id Z + 1) (upd N.eqb (next_id Z) (sh_entry e) (entries Z)) t2z n2z (ref_to_id Z)).
+  Proof.
+    intros Y Z e [H1 [H2 [H3 H4]]] t2y n2y t2z n2z. unfold Core. simp_space.
+    assert (Hz : next_id Z = sh (next_id Y)) by (rewrite sh_ge; [exact H1|exact H2]).
+    split; [lia|]. split; [lia|]. split.
+    - intro i. rewrite !lookup_upd_cases, Hz, sh_eqb. destruct (i =? next_id Y); [reflexivity|apply H3].
+    - intros j Hj. rewrite lookup_upd_cases. destruct (j =? next_id Z) eqn:E; [apply N.eqb_eq in E; lia|apply H4; exact Hj].
+  Qed.
+
+  Lemma assign_frame : forall Y Z r, Core Y Z -> r_cond r Y Z ->
+    Core (fst (assign_type Y r)) (fst (assign_type Z (sh_rentry r)))
+    /\ snd (assign_type Z (sh_rentry r)) = sh (snd (assign_type Y r))
+    /\ Pres Y Z (fst (assign_type Y r)) (fst (assign_type Z (sh_rentry r))).
+  Proof.
+    intros Y Z r HC Hr. pose proof HC as [H1 [H2 _]].
+    assert (Hz : next_id Z = sh (next_id Y)) by (rewrite sh_ge; [exact H1|exact H2]).
+    destruct r as [j|[n β|β]]; cbn [assign_type sh_rentry sh_entry r_cond] in *.
+    - split; [exact HC|]. split; [reflexivity|apply Pres_refl].
+    - unfold Nn in Hr. destruct (lookup N.eqb n (name_to_id Y)) as [i|] eqn:En; cbn [option_map] in Hr; rewrite Hr; cbn [fst snd].
+      + split; [exact HC|]. split; [reflexivity|apply Pres_refl].
+      + split; [apply Core_alloc; exact HC|]. split; [exact Hz|].
+        unfold Pres, Nn, Tb, Rr. simp_space. split; [|split; auto].
+        intros n' Hn'. rewrite !lookup_upd_cases. destruct (n' =? n); [cbn [option_map]; rewrite Hz; reflexivity|exact Hn'].
+    - unfold Tb in Hr. destruct (lookup body_eqb β (type_to_id Y)) as [i|] eqn:En; cbn [option_map] in Hr; rewrite Hr; cbn [fst snd].
+      + split; [exact HC|]. split; [reflexivity|apply Pres_refl].
+      + split; [apply Core_alloc; exact HC|]. split; [exact Hz|].
+        unfold Pres, Nn, Tb, Rr. simp_space. split; [auto|split; auto].
+        intros β' Hb'. rewrite !lookup_upd_cases_b, sh_body_eqb. destruct (body_eqb β' β); [cbn [option_map]; rewrite Hz; reflexivity|exact Hb'].
+  Qed.
+End Frame.
+
+Section Frame2.
+  Context (b d : N) (G : list (id * entry)) (Hb1 : 1 <= b).
+  Context (Y0 Z0 : space).      (* the two states at the start of the call *)
+  Local Notation sh' := (sh b d).
+  Local Notation Core' := (Core b d G).
+  Local Notation Pres' := (Pres b d).
+
+  (* what the call may look at must be related in the START states *)
+  Definition cref_cond0 (c : cref) : Prop :=
+    match c with CRes _ => True | CAbs i => i < b | CKey r => Rr b d r Y0 Z0 end.
+  Definition tentry_cond0 (Y : space) (res : list id) (t : tentry) : Prop :=
+    match t with
+    | TNamed n tb => Forall cref_cond0 (tkids tb) /\ Nn b d n Y0 Z0
+    | TUnnamed tb => Forall cref_cond0 (tkids tb) /\ Tb b d (resolve_body Y res tb) Y0 Z0
+    | TRef c => cref_cond0 c
+    end.
+  Fixpoint script_cond0 (Y : space) (res : list id) (scr : list tentry) : Prop :=
+    match scr with
+    | [] => True
+    | t :: r => tentry_cond0 Y res t /\
+                script_cond0 (fst (assign_type Y (resolve_t Y res t))) (res ++ [snd (assign_type Y (resolve_t Y res t))]) r
+    end.
+
+  Lemma resolve_frame : forall Y Z res c, Pres' Y0 Z0 Y Z -> cref_cond0 c ->
+    resolve Z (map sh' res) c = sh' (resolve Y res c).
+  Proof.
+    intros Y Z res c [_ [_ HR]] Hc. destruct c as [k|i|r]; cbn [resolve cref_cond0] in *.
+    - rewrite <- (sh_lt b d 0) at 1 by lia. apply map_nth.
+    - symmetry. apply sh_lt. exact Hc.
+    - apply HR in Hc. unfold Rr in Hc. rewrite Hc. destruct (lookup N.eqb r (ref_to_id Y)); cbn [option_map]; [reflexivity|].
+      symmetry. apply sh_lt. lia.
+  Qed.
+
+  Lemma resolve_body_frame : forall Y Z res tb, Pres' Y0 Z0 Y Z -> Forall cref_cond0 (tkids tb) ->
+    resolve_body Z (map sh' res) tb = sh_body b d (resolve_body Y res tb).
+  Proof.
+    intros Y Z res tb HP Hf. unfold resolve_body, sh_body. cbn [bkey bkids]. f_equal. rewrite map_map.
+    apply map_ext_in. intros c Hc. apply (resolve_frame Y Z res c HP). eapply Forall_forall; eassumption.
+  Qed.
+
+  Lemma script_frame : forall scr Y Z res, Core' Y Z -> Pres' Y0 Z0 Y Z -> script_cond0 Y res scr ->
+    Core' (fst (run_script Y res scr)) (fst (run_script Z (map sh' res) scr))
+    /\ snd (run_script Z (map sh' res) scr) = map sh' (snd (run_script Y res scr))
+    /\ Pres' Y0 Z0 (fst (run_script Y res scr)) (fst (run_script Z (map sh' res) scr)).
+  Proof.
+    induction scr as [|t r IH]; intros Y Z res HC HP Hs; cbn [run_script script_cond0] in *.
+    - cbn [fst snd]. auto.
+    - destruct Hs as [Ht Hr].
+      assert (Hres : resolve_t Z (map sh' res) t = sh_rentry b d (resolve_t Y res t)).
+      { destruct t as [n tb|tb|c]; cbn [resolve_t tentry_cond0 sh_rentry sh_entry] in *.
+        - destruct Ht as [Hk _]. rewrite (resolve_body_frame Y Z res tb HP Hk). reflexivity.
+        - destruct Ht as [Hk _]. rewrite (resolve_body_frame Y Z res tb HP Hk). reflexivity.
+        - rewrite (resolve_frame Y Z res c HP Ht). reflexivity. }
+      assert (Hrc : r_cond b d (resolve_t Y res t) Y Z).
+      { destruct HP as [HN [HT _]]. destruct t as [n tb|tb|c]; cbn [resolve_t r_cond tentry_cond0] in *; [apply HN, Ht|apply HT, Ht|exact I]. }
+      rewrite Hres.
+      destruct (assign_frame b d G Y Z _ HC Hrc) as [HC' [Hi HP']].
+      destruct (assign_type Y (resolve_t Y res t)) as [Y' i]. 
+      destruct (assign_type Z (sh_rentry b d (resolve_t Y res t))) as [Z' j]. cbn [fst snd] in *. subst j.
+      replace (map sh' res ++ [sh' i]) with (map sh' (res ++ [i])) by (rewrite map_app; reflexivity).
+      apply IH; [exact HC'| |exact Hr]. eapply Pres_trans; eassumption.
+  Qed.
+End Frame2.
+
+Section Frame3.
+  Context (b d : N) (G : list (id * entry)) (Hb1 : 1 <= b).
+  Context (Y0 Z0 : space).
+  Local Notation sh' := (sh b d).
+  Local Notation Core' := (Core b d G).
+  Local Notation Pres' := (Pres b d).
+
+  Definition same_obs (Y Y' : space) : Prop :=
+    next_id Y' = next_id Y /\ (forall k, lookup N.eqb k (entries Y') = lookup N.eqb k (entries Y))
+    /\ type_to_id Y' = type_to_id Y /\ name_to_id Y' = name_to_id Y /\ ref_to_id Y' = ref_to_id Y.
+
+  Lemma finalize_same_obs : forall base Y, same_obs Y (finalize_range base Y).
+  Proof.
+    intros base Y. unfold same_obs. split; [apply finalize_range_next|]. split; [intro k; apply finalize_range_lookup|].
+    destruct (fold_finalize_idx (range base (N.to_nat (next_id Y - base))) Y) as [A [B C]].
+    unfold finalize_range. auto.
+  Qed.
+
+  Lemma same_obs_frame : forall Y Z Y' Z', Core' Y Z -> same_obs Y Y' -> same_obs Z Z' ->
+    Core' Y' Z' /\ Pres' Y Z Y' Z'.
+  Proof.
+    intros Y Z Y' Z' [H1 [H2 [H3 H4]]] [A1 [A2 [A3 [A4 A5]]]] [B1 [B2 [B3 [B4 B5]]]]. split.
+    - unfold Core. rewrite A1, B1. split; [exact H1|]. split; [exact H2|]. split.
+      + intro i. rewrite A2, B2. apply H3.
+      + intros j Hj. rewrite B2. apply H4. exact Hj.
+    - unfold Pres, Nn, Tb, Rr. rewrite A3, A4, A5, B3, B4, B5. auto.
+  Qed.
+
+  Lemma reserve_refs_frame : forall defs mY mZ rid r, b <= rid ->
+    lookup N.eqb r mZ = option_map sh' (lookup N.eqb r mY) ->
+    lookup N.eqb r (reserve_refs mZ (rid + d) defs) = option_map sh' (lookup N.eqb r (reserve_refs mY rid defs)).
+  Proof.
+    induction defs as [|df t IH]; intros mY mZ rid r Hr H; cbn [reserve_refs]; [exact H|].
+    replace (rid + d + 1) with (rid + 1 + d) by lia. apply IH; [lia|].
+    rewrite !lookup_upd_cases. destruct (r =? d_key df); [cbn [option_map]; rewrite sh_ge; [reflexivity|exact Hr]|exact H].
+  Qed.
+
+  Lemma reserve_frame : forall Y Z defs, Core' Y Z -> Core' (reserve Y defs) (reserve Z defs) /\ Pres' Y Z (reserve Y defs) (reserve Z defs).
+  Proof.
+    intros Y Z defs [H1 [H2 [H3 H4]]]. split.
+    - unfold Core, reserve. simp_space. split; [lia|]. split; [lia|]. split; assumption.
+    - unfold Pres, Nn, Tb, Rr, reserve. simp_space. split; [auto|]. split; [auto|].
+      intros r Hr. rewrite H1. apply reserve_refs_frame; assumption.
+  Qed.
+
+  Definition def_cond0 (Y : space) (df : defn) : Prop :=
+    script_cond0 b d Y0 Z0 Y [] (d_script df) /\ Forall (cref_cond0 b d Y0 Z0) (tkids (ins_body (d_ins df))).
+
+  Lemma convert_def_frame : forall Y Z rid df, Core' Y Z -> Pres' Y0 Z0 Y Z -> b <= rid -> def_cond0 Y df ->
+    Core' (convert_def Y rid df) (convert_def Z (rid + d) df) /\ Pres' Y0 Z0 (convert_def Y rid df) (convert_def Z (rid + d) df).
+  Proof.
+    intros Y Z rid df HC HP Hr [Hs Hi]. unfold convert_def.
+    destruct (script_frame b d G Hb1 Y0 Z0 (d_script df) Y Z [] HC HP Hs) as [HC1 [Hres HP1]]. cbn [map] in *.
+    destruct (run_script Y [] (d_script df)) as [Y1 res]. destruct (run_script Z [] (d_script df)) as [Z1 resZ].
+    cbn [fst snd] in *. subst resZ.
+    assert (Hrid : rid + d = sh' rid) by (rewrite sh_ge; [reflexivity|exact Hr]).
+    destruct HC1 as [H1 [H2 [H3 H4]]].
+    assert (HE : forall e, Core' (set_entries Y1 (upd N.eqb rid e (entries Y1)))
+                              (set_entries Z1 (upd N.eqb (rid + d) (sh_entry b d e) (entries Z1)))).
+    { intro e. unfold Core. simp_space. split; [exact H1|]. split; [exact H2|]. split.
+      - intro i. rewrite !lookup_upd_cases, Hrid, sh_eqb. destruct (i =? rid); [reflexivity|apply H3].
+      - intros j Hj. rewrite lookup_upd_cases. destruct (j =? rid + d) eqn:E; [|apply H4; exact Hj].
+        apply N.eqb_eq in E. rewrite Hrid in E. subst j. exfalso. exact (sh_not_gap b d rid Hj). }
+    destruct (d_ins df) as [n tb|tb]; cbn [ins_body] in Hi; rewrite (resolve_body_frame b d Hb1 Y0 Z0 Y1 Z1 res tb HP1 Hi).
+    - split.
+      + specialize (HE (Named n (resolve_body Y1 res tb))). unfold Core in *. simp_space. exact HE.
+      + destruct HP1 as [PN [PT PR]]. unfold Pres, Nn, Tb, Rr in *. simp_space. split; [|split; auto].
+        intros n' Hn'. rewrite !lookup_upd_cases. destruct (n' =? n); [cbn [option_map]; rewrite Hrid; reflexivity|apply PN; exact Hn'].
+    - split; [apply (HE (Unnamed (resolve_body Y1 res tb)))|].
+      destruct HP1 as [PN [PT PR]]. unfold Pres, Nn, Tb, Rr in *. simp_space. auto.
+  Qed.
+
+  Fixpoint defs_cond0 (Y : space) (rid : id) (defs : list defn) : Prop :=
+    match defs with
+    | [] => True
+    | df :: r => def_cond0 Y df /\ defs_cond0 (convert_def Y rid df) (rid + 1) r
+    end.
+
+  Lemma convert_defs_frame : forall defs Y Z rid, Core' Y Z -> Pres' Y0 Z0 Y Z -> b <= rid -> defs_cond0 Y rid defs ->
+    Core' (convert_defs Y rid defs) (convert_defs Z (rid + d) defs)
+    /\ Pres' Y0 Z0 (convert_defs Y rid defs) (convert_defs Z (rid + d) defs).
+  Proof.
+    induction defs as [|df r IH]; intros Y Z rid HC HP Hr Hd; cbn [convert_defs defs_cond0] in *; [auto|].
+    destruct Hd as [Hd1 Hd2]. destruct (convert_def_frame Y Z rid df HC HP Hr Hd1) as [HC' HP'].
+    replace (rid + d + 1) with (rid + 1 + d) by lia. apply IH; [exact HC'|exact HP'|lia|exact Hd2].
+  Qed.
+End Frame3.
+
+Section Frame4.
+  Context (b d : N) (G : list (id * entry)) (Hb1 : 1 <= b).
+  Context (Y0 Z0 : space).
+  Local Notation sh' := (sh b d).
+  Local Notation Core' := (Core b d G).
+  Local Notation Pres' := (Pres b d).
+
+  Lemma map_replace_nth : forall l k v, map sh' (replace_nth k v l) = replace_nth k (sh' v) (map sh' l).
+  Proof. induction l as [|a t IH]; intros [|k] v; cbn [replace_nth map]; try reflexivity. rewrite IH. reflexivity. Qed.
+
+  Lemma ekids_sh : forall e, ekids (sh_entry b d e) = map sh' (ekids e).
+  Proof. intros [n β|β]; reflexivity. Qed.
+
+  Lemma with_kids_sh : forall e ks, sh_entry b d (with_kids e ks) = with_kids (sh_entry b d e) (map sh' ks).
+  Proof. intros [n β|β] ks; reflexivity. Qed.
+
+  Definition box_cond0 (Y : space) (pk : id * nat) : Prop :=
+    match lookup N.eqb (fst pk) (entries Y) with
+    | None => True
+    | Some e => match nth_error (ekids e) (snd pk) with
+                | None => True
+                | Some c => Tb b d (mkBody BOXKEY [c]) Y0 Z0
+                end
+    end.
+  Definition sh_pk (pk : id * nat) : id * nat := (sh' (fst pk), snd pk).
+
+  Lemma box_frame : forall Y Z pk, Core' Y Z -> Pres' Y0 Z0 Y Z -> box_cond0 Y pk ->
+    Core' (box_slot Y pk) (box_slot Z (sh_pk pk)) /\ Pres' Y0 Z0 (box_slot Y pk) (box_slot Z (sh_pk pk)).
+  Proof.
+    intros Y Z [p k] HC HP Hc. unfold box_slot, sh_pk, box_cond0 in *. cbn [fst snd] in *.
+    pose proof HC as [_ [_ [H3 _]]]. rewrite (H3 p).
+    destruct (lookup N.eqb p (entries Y)) as [e|] eqn:Ep; cbn [option_map]; [|auto].
+    rewrite ekids_sh, nth_error_map.
+    destruct (nth_error (ekids e) k) as [c|] eqn:Ek; cbn [option_map]; [|auto].
+    assert (Hrc : r_cond b d (REnt (Unnamed (mkBody BOXKEY [c]))) Y Z) by (cbn [r_cond]; apply HP; exact Hc).
+    destruct (assign_frame b d G Y Z _ HC Hrc) as [HC' [Hi HP']].
+    change (sh_rentry b d (REnt (Unnamed (mkBody BOXKEY [c])))) with (REnt (Unnamed (mkBody BOXKEY [sh' c]))) in *.
+    destruct (assign_type Y (REnt (Unnamed (mkBody BOXKEY [c])))) as [Y' bx].
+    destruct (assign_type Z (REnt (Unnamed (mkBody BOXKEY [sh' c])))) as [Z' bz]. cbn [fst snd] in *. subst bz.
+    destruct HC' as [H1 [H2 [H3' H4]]]. split.
+    - unfold Core. simp_space. split; [exact H1|]. split; [exact H2|]. split.
+      + intro i. rewrite !lookup_upd_cases, sh_eqb. destruct (i =? p); [|apply H3'].
+        cbn [option_map]. rewrite with_kids_sh, map_replace_nth. reflexivity.
+      + intros j Hj. rewrite lookup_upd_cases. destruct (j =? sh' p) eqn:E; [|apply H4; exact Hj].
+        apply N.eqb_eq in E. subst j. exfalso. exact (sh_not_gap b d p Hj).
+    - eapply Pres_trans; [exact HP|]. destruct HP' as [PN [PT PR]]. unfold Pres, Nn, Tb, Rr in *. simp_space. auto.
+  Qed.
+
+  Fixpoint boxes_cond0 (Y : space) (l : list (id * nat)) : Prop :=
+    match l with [] => True | pk :: r => box_cond0 Y pk /\ boxes_cond0 (box_slot Y pk) r end.
+
+  Lemma boxes_frame : forall l Y Z, Core' Y Z -> Pres' Y0 Z0 Y Z -> boxes_cond0 Y l ->
+    Core' (fold_left box_slot l Y) (fold_left box_slot (map sh_pk l) Z)
+    /\ Pres' Y0 Z0 (fold_left box_slot l Y) (fold_left box_slot (map sh_pk l) Z).
+  Proof.
+    induction l as [|pk l IH]; intros Y Z HC HP Hc; cbn [fold_left map boxes_cond0] in *; [auto|].
+    destruct Hc as [H1 H2]. destruct (box_frame Y Z pk HC HP H1) as [HC' HP']. apply IH; assumption.
+  Qed.
+
+  (* the call as issued against the big state: snips address the shifted parents *)
+  Definition shift_call (c : call) : call :=
+    match c with
+    | AddRefs defs boxes ret => AddRefs defs (map sh_pk boxes) ret
+    | c => c
+    end.
+
+  (* independence of the call from the extra part of the big state, evaluated
+     along the call's run in the SMALL state: every name, structure and ref key
+     the call looks up has related answers in the two START states *)
+  Definition call_cond0 (c : call) : Prop :=
+    match c with
+    | AddType scr => script_cond0 b d Y0 Z0 Y0 [] scr
+    | AddRefs defs boxes ret =>
+        batch_dup defs = None
+        /\ defs_cond0 b d Y0 Z0 (reserve Y0 defs) (next_id Y0) defs
+        /\ boxes_cond0 (convert_defs (reserve Y0 defs) (next_id Y0) defs) boxes
+        /\ match ret with Some r => Rr b d r Y0 Z0 \/ In r (map d_key defs) | None => True end
+    | AddRefsErr _ _ _ => False
+    end.
+
+  Lemma call_frame : forall c, Core' Y0 Z0 -> call_cond0 c ->
+    Core' (fst (run_call Y0 c)) (fst (run_call Z0 (shift_call c)))
+    /\ Pres' Y0 Z0 (fst (run_call Y0 c)) (fst (run_call Z0 (shift_call c))).
+  Proof.
+    intros [scr|defs boxes ret|defs done partial] HC Hc; cbn [run_call shift_call call_cond0] in *; [| |contradiction].
+    - unfold add_type.
+      destruct (script_frame b d G Hb1 Y0 Z0 scr Y0 Z0 [] HC (Pres_refl b d Y0 Z0) Hc) as [HC1 [_ HP1]]. cbn [map] in *.
+      destruct (run_script Y0 [] scr) as [Y1 res]. destruct (run_script Z0 [] scr) as [Z1 resZ]. cbn [fst snd] in *.
+      destruct (same_obs_frame b d G Y1 Z1 _ _ HC1 (finalize_same_obs (next_id Y0) Y1) (finalize_same_obs (next_id Z0) Z1)) as [HC2 HP2].
+      split; [exact HC2|]. eapply Pres_trans; eassumption.
+    - destruct Hc as [Hnd [Hd [Hbx _]]]. rewrite Hnd. unfold refs_ok. cbn [fst].
+      destruct (reserve_frame b d G Hb1 Y0 Z0 defs HC) as [HC1 HP1].
+      pose proof HC as [Hn [Hbn _]].
+      destruct (convert_defs_frame b d G Hb1 Y0 Z0 defs _ _ (next_id Y0) HC1 HP1 Hbn Hd) as [HC2 HP2].
+      rewrite <- Hn in HC2, HP2.
+      destruct (boxes_frame boxes _ _ HC2 HP2 Hbx) as [HC3 HP3].
+      destruct (same_obs_frame b d G _ _ _ _ HC3 (finalize_same_obs (next_id Y0) _) (finalize_same_obs (next_id Z0) _)) as [HC4 HP4].
+      split; [exact HC4|]. eapply Pres_trans; eassumption.
+  Qed.
+End Frame4.
+
+(* ------------------------------------------------------------------ *)
+(* 10. two independent calls commute up to an explicit renaming of ids  *)
+(* ------------------------------------------------------------------ *)
+Definition ren (f : id -> id) (e : entry) : entry :=
+  match e with
+  | Named n β => Named n (mkBody (bkey β) (map f (bkids β)))
+  | Unnamed β => Unnamed (mkBody (bkey β) (map f (bkids β)))
+  end.
+
+Lemma sh_entry_ren : forall b d e, sh_entry b d e = ren (sh b d) e.
+Proof. intros b d [n β|β]; reflexivity. Qed.
+
+Lemma ren_ext : forall f g e, (forall k, In k (ekids e) -> f k = g k) -> ren f e = ren g e.
+Proof.
+  intros f g [n β|β] H; cbn [ren ekids ebody] in *; do 2 f_equal; apply map_ext_in; exact H.
+Qed.
+
+Lemma ren_id : forall f e, (forall k, In k (ekids e) -> f k = k) -> ren f e = e.
+Proof.
+  intros f [n [k l]|[k l]] H; cbn [ren ekids ebody bkey bkids] in *; do 2 f_equal;
+    (rewrite <- (map_id l) at 2; apply map_ext_in; exact H).
+Qed.
+
+Lemma ekids_ren : forall f e, ekids (ren f e) = map f (ekids e).
+Proof. intros f [n β|β]; reflexivity. Qed.
+
+(* the big state X extends s by ids [next_id s, next_id X) and agrees with s below *)
+Lemma Core_init : forall s X, Bnd s -> Bnd X -> kept (next_id s) s X ->
+  Core (next_id s) (next_id X - next_id s) (entries X) s X.
+Proof.
+  intros s X HBs HBX [Hle Hk]. pose proof HBs as [_ [Hes _]]. pose proof HBX as [_ [HeX _]].
+  unfold Core. split; [lia|]. split; [lia|]. split; [|auto].
+  intro i. destruct (N.ltb_spec i (next_id s)) as [Hi|Hi].
+  - rewrite sh_lt by exact Hi. rewrite Hk by exact Hi.
+    destruct (lookup N.eqb i (entries s)) as [e|] eqn:E; cbn [option_map]; [|reflexivity].
+    f_equal. rewrite sh_entry_ren. symmetry. apply ren_id. intros k Hkin. apply sh_lt.
+    destruct (Hes i e E) as [_ Hf]. pose proof (proj1 (Forall_forall _ _) Hf k Hkin) as Hr. unfold inr in Hr. lia.
+  - rewrite sh_ge by exact Hi.
+    destruct (lookup N.eqb (i + (next_id X - next_id s)) (entries X)) as [e|] eqn:E.
+    + destruct (HeX _ e E) as [Hr _]. unfold inr in Hr. lia.
+    + destruct (lookup N.eqb i (entries s)) as [e|] eqn:E'; [|reflexivity].
+      destruct (Hes _ e E') as [Hr _]. unfold inr in Hr. lia.
+Qed.
+
+(* the renaming between the results of [c1; c2] and [c2; c1]: ids below b stay,
+   the n1 ids of c1 move behind the n2 ids of c2 and vice versa *)
+Definition swap_ren (b n1 n2 i : N) : N :=
+  if i <? b then i else if i <? b + n1 then i + n2 else i - n1.
+
+Lemma swap_ren_inv : forall b n1 n2 i, i < b + n1 + n2 -> swap_ren b n2 n1 (swap_ren b n1 n2 i) = i.
+Proof.
+  intros b n1 n2 i Hi. unfold swap_ren.
+  destruct (N.ltb_spec i b) as [H1|H1].
+  - apply N.ltb_lt in H1. rewrite H1. reflexivity.
+  - destruct (N.ltb_spec i (b + n1)) as [H2|H2].
+    + destruct (N.ltb_spec (i + n2) b); [lia|]. destruct (N.ltb_spec (i + n2) (b + n2)); lia.
+    + destruct (N.ltb_spec (i - n1) b); [lia|]. destruct (N.ltb_spec (i - n1) (b + n2)); lia.
+Qed.
+
+Lemma swap_ren_range : forall b n1 n2 i, 1 <= i < b + n1 + n2 -> 1 <= b -> 1 <= swap_ren b n1 n2 i < b + n1 + n2.
+Proof.
+  intros b n1 n2 i Hi Hb. unfold swap_ren.
+  destruct (N.ltb_spec i b); [lia|]. destruct (N.ltb_spec i (b + n1)); lia.
+Qed.
+
+Lemma Bnd_kids : forall s i e k, Bnd s -> lookup N.eqb i (entries s) = Some e -> In k (ekids e) -> 1 <= k < next_id s.
+Proof.
+  intros s i e k [_ [He _]] Hi Hk. destruct (He i e Hi) as [_ Hf].
+  exact (proj1 (Forall_forall _ _) Hf k Hk).
+Qed.
+
+Theorem calls_commute : forall s c1 c2 Y1 Y2 n1 n2 A B,
+  Bnd s -> Dom s ->
+  call_ok s c1 -> call_ok s c2 -> boxes_of_call_new s c1 -> boxes_of_call_new s c2 ->
+  Y1 = fst (run_call s c1) -> Y2 = fst (run_call s c2) ->
+  n1 = next_id Y1 - next_id s -> n2 = next_id Y2 - next_id s ->
+  call_cond0 (next_id s) n2 s Y2 c1 -> call_cond0 (next_id s) n1 s Y1 c2 ->
+  A = fst (run_call Y1 (shift_call (next_id s) n1 c2)) ->
+  B = fst (run_call Y2 (shift_call (next_id s) n2 c1)) ->
+  next_id A = next_id B /\ next_id A = next_id s + n1 + n2 /\
+  forall i, 1 <= i < next_id A ->
+    lookup N.eqb (swap_ren (next_id s) n1 n2 i) (entries B)
+    = option_map (ren (swap_ren (next_id s) n1 n2)) (lookup N.eqb i (entries A)).
+Proof.
+  intros s c1 c2 Y1 Y2 n1 n2 A B HBs HDs Hok1 Hok2 Hbx1 Hbx2 EY1 EY2 En1 En2 I12 I21 EA EB.
+  set (b := next_id s) in *.
+  assert (Hb1 : 1 <= b) by (destruct HBs as [H _]; exact H).
+  destruct (run_call_Bnd s c1 HBs HDs Hok1) as [HB1 _]. rewrite <- EY1 in HB1.
+  destruct (run_call_Bnd s c2 HBs HDs Hok2) as [HB2 _]. rewrite <- EY2 in HB2.
+  pose proof (run_call_kept s c1 Hbx1) as K1. rewrite <- EY1 in K1. fold b in K1.
+  pose proof (run_call_kept s c2 Hbx2) as K2. rewrite <- EY2 in K2. fold b in K2.
+  pose proof (Core_init s Y1 HBs HB1 K1) as C1. fold b in C1. rewrite <- En1 in C1.
+  pose proof (Core_init s Y2 HBs HB2 K2) as C2. fold b in C2. rewrite <- En2 in C2.
+  destruct (call_frame b n2 (entries Y2) Hb1 s Y2 c1 C2 I12) as [FB _]. rewrite <- EY1, <- EB in FB.
+  destruct (call_frame b n1 (entries Y1) Hb1 s Y1 c2 C1 I21) as [FA _]. rewrite <- EY2, <- EA in FA.
+  destruct FA as [FA1 [_ [FA3 FA4]]]. destruct FB as [FB1 [_ [FB3 FB4]]].
+  destruct K1 as [K1a K1b]. destruct K2 as [K2a K2b].
+  assert (HnA : next_id A = b + n1 + n2) by lia.
+  split; [lia|]. split; [exact HnA|].
+  intros i Hi. unfold swap_ren at 1.
+  destruct (N.ltb_spec i b) as [H1|H1].
+  - (* an id that existed before both calls *)
+    pose proof (FA3 i) as HA. pose proof (FB3 i) as HB. rewrite sh_lt in HA, HB by exact H1.
+    rewrite K2b in HA by exact H1. rewrite K1b in HB by exact H1. rewrite HA, HB.
+    destruct (lookup N.eqb i (entries s)) as [e|] eqn:E; cbn [option_map]; [|reflexivity]. f_equal.
+    assert (Hk : forall k, In k (ekids e) -> k < b) by (intros k Hk; pose proof (Bnd_kids s i e k HBs E Hk); unfold b; lia).
+    rewrite !sh_entry_ren.
+    rewrite (ren_id (sh b n2) e) by (intros k Hkin; apply sh_lt; auto).
+    rewrite (ren_id (sh b n1) e) by (intros k Hkin; apply sh_lt; auto).
+    symmetry. apply ren_id. intros k Hkin. unfold swap_ren. pose proof (Hk k Hkin) as Hlt.
+    apply N.ltb_lt in Hlt. rewrite Hlt. reflexivity.
+  - destruct (N.ltb_spec i (b + n1)) as [H2|H2].
+    + (* an id created by c1: it sits in the gap of A, shifted by n2 in B *)
+      rewrite (FA4 i) by lia. pose proof (FB3 i) as HB. rewrite sh_ge in HB by exact H1. rewrite HB.
+      destruct (lookup N.eqb i (entries Y1)) as [e|] eqn:E; cbn [option_map]; [|reflexivity]. f_equal.
+      rewrite sh_entry_ren. apply ren_ext. intros k Hkin.
+      pose proof (Bnd_kids Y1 i e k HB1 E Hkin) as Hk. unfold sh, swap_ren.
+      destruct (N.ltb_spec k b); [reflexivity|]. destruct (N.ltb_spec k (b + n1)); [reflexivity|lia].
+    + (* an id created by c2: shifted by n1 in A, in the gap of B *)
+      assert (Ei : i = sh b n1 (i - n1)) by (rewrite sh_ge by lia; lia).
+      rewrite Ei at 2. rewrite FA3. rewrite (FB4 (i - n1)) by lia.
+      destruct (lookup N.eqb (i - n1) (entries Y2)) as [e|] eqn:E; cbn [option_map]; [|reflexivity]. f_equal.
+      rewrite sh_entry_ren. symmetry.
+      assert (Hk : forall k, In k (ekids e) -> swap_ren b n1 n2 (sh b n1 k) = k).
+      { intros k Hkin. pose proof (Bnd_kids Y2 _ _ k HB2 E Hkin) as Hk. unfold sh, swap_ren.
+        destruct (N.ltb_spec k b) as [Hkb|Hkb]; [apply N.ltb_lt in Hkb; rewrite Hkb; reflexivity|].
+        destruct (N.ltb_spec (k + n1) b); [lia|]. destruct (N.ltb_spec (k + n1) (b + n1)); lia. }
+      destruct e as [n [key l]|[key l]]; cbn [ren bkey bkids ekids ebody] in *; do 2 f_equal;
+        rewrite map_map; (transitivity (map (fun x : N => x) l); [apply map_ext_in; exact Hk|apply map_id]).
+Qed.
+
+Lemma hdr_ren : forall f e, hdr (ren f e) = hdr e.
+Proof. intros f [n β|β]; reflexivity. Qed.
+
+(* non-vacuity of calls_commute: from a state that already has String (id 1),
+   c1 = definition A {a: A, s: String} with its self reference boxed,
+   c2 = definition B {v: Vec<String>} *)
+Definition cw_s : space := run_history empty [AddType [TUnnamed (mkT 7 [])]].
+Definition cw_c1 : call := AddRefs [mkDef 1 [] (InsNamed 1 (mkT 1 [CKey 1; CAbs 1]))] [(2, 0%nat)] None.
+Definition cw_c2 : call := AddRefs [mkDef 2 [TUnnamed (mkT 5 [CAbs 1])] (InsNamed 2 (mkT 1 [CRes 0]))] [] None.
+
+Lemma cw_hyps :
+  Bnd cw_s /\ Dom cw_s /\ call_ok cw_s cw_c1 /\ call_ok cw_s cw_c2
+  /\ boxes_of_call_new cw_s cw_c1 /\ boxes_of_call_new cw_s cw_c2
+  /\ call_cond0 (next_id cw_s) (next_id (fst (run_call cw_s cw_c2)) - next_id cw_s) cw_s (fst (run_call cw_s cw_c2)) cw_c1
+  /\ call_cond0 (next_id cw_s) (next_id (fst (run_call cw_s cw_c1)) - next_id cw_s) cw_s (fst (run_call cw_s cw_c1)) cw_c2.
+Proof.
+  assert (H : history_ok empty [AddType [TUnnamed (mkT 7 [])]]) by (vm_compute; repeat split; repeat constructor).
+  destruct Bnd_empty as [HB HD]. destruct (run_history_Bnd _ empty HB HD H) as [HB' HD'].
+  split; [exact HB'|]. split; [exact HD'|].
+  vm_compute. repeat split; try discriminate; try reflexivity; repeat constructor; try discriminate; try reflexivity.
+Qed.
